@@ -678,8 +678,6 @@ package rapid
 //@ func sameError
 //@   trusted "a real failure's traceback is never the literal '<no error>' text, so an error never equals 'no error'"
 //@   ensures implies(result, (err1 == nil) == (err2 == nil))
-//@ func traceback
-//@ func errorString
 
 //@ func kindaSafeFilename
 //@   modifies runesWritten
@@ -757,3 +755,72 @@ package rapid
 //@   loop 0 invariant [C13] arr(buf) == nil || fresh(arr(buf))
 //@   loop 0 invariant [C13] forall(j, 0, len(buf), buf[j] == fuzzWords[j])
 //@   loop 0 decreases len(input)
+
+// ---------------------------------------------------------------------------------------------
+// shrink.go
+
+//@ func compareData
+//@   ensures [C05] result == -1 || result == 0 || result == 1
+//@   ensures [C05] implies(len(a) < len(b), result == -1) && implies(len(a) > len(b), result == 1)
+//@   ensures [C05] implies(len(a) == len(b) && result == 0, forall(k, 0, len(a), a[k] == b[k]))
+//@   ensures [C05] implies(len(a) == len(b) && result == -1, exists(k, 0, len(a), a[k] < b[k] && forall(m, 0, k, a[m] == b[m])))
+//@   ensures [C05] implies(len(a) == len(b) && result == 1, exists(k, 0, len(a), a[k] > b[k] && forall(m, 0, k, a[m] == b[m])))
+//@   loop 0 invariant [C05] len(a) == len(b) && -1 <= rangeindex && rangeindex < len(a) && forall(k, 0, rangeindex + 1, a[k] == b[k])
+
+// minimize (C12): exact for monotone conditions. The callback is specified against an abstract predicate
+// condP; monotone(condP) and condP(u) are preconditions; the result is the least value satisfying condP.
+//@ ufun condP ((_ BitVec 64)) Bool
+//@ define monotoneP() = forallu(a, forallu(b, implies(a <= b && condP(a), condP(b))))
+//@ define leastP(r) = condP(r) && forallu(y, implies(y < r, !condP(y)))
+//@ define smallNotP() = !condP(0) && !condP(1) && !condP(2) && !condP(3) && !condP(4)
+
+//@ callback func(uint64, string) bool
+//@   params fn, u, label
+//@   assumes "the condition callback given to minimize does not touch the minimizer object itself"
+//@   ensures result == condP(u)
+//@   modifies drawn, lockmode, cancelled
+
+//@ func (*minimizer).accept
+//@   requires [C12] m.cond != nil
+//@   ensures [C12] implies(result, m.best == u && condP(u) && u < old(m.best) && u >= 5)
+//@   ensures [C12] implies(!result, m.best == old(m.best) && (u >= old(m.best) || u < 5 || !condP(u)))
+//@   modifies m.best, drawn, lockmode, cancelled
+
+//@ define minv(m) = m.cond != nil && condP(m.best) && m.best >= 5
+
+//@ func (*minimizer).rShift
+//@   requires [C12] minv(m)
+//@   ensures [C12] minv(m) && m.best <= old(m.best)
+//@   modifies m.best, drawn, lockmode, cancelled
+//@   loop 0 invariant [C12] minv(m) && m.best <= old(m.best)
+
+//@ func (*minimizer).unsetBits
+//@   requires [C12] minv(m)
+//@   ensures [C12] minv(m) && m.best <= old(m.best)
+//@   modifies m.best, drawn, lockmode, cancelled
+//@   loop 0 invariant [C12] minv(m) && m.best <= old(m.best) && i < 64
+//@   loop 0 decreases i + 1
+
+//@ func (*minimizer).sortBits
+//@   requires [C12] minv(m)
+//@   ensures [C12] minv(m) && m.best <= old(m.best)
+//@   modifies m.best, drawn, lockmode, cancelled
+//@   loop 0 invariant [C12] minv(m) && m.best <= old(m.best) && i < 64
+//@   loop 0 decreases i + 1
+//@   loop 1 invariant [C12] minv(m) && m.best <= old(m.best) && 0 <= j && j <= i && 0 <= i && i < 64
+//@   loop 1 decreases i - j
+
+//@ func (*minimizer).binSearch
+//@   requires [C12] minv(m) && monotoneP() && smallNotP()
+//@   ensures [C12] minv(m) && m.best <= old(m.best) && leastP(m.best)
+//@   modifies m.best, drawn, lockmode, cancelled
+//@   loop 0 invariant [C12] minv(m) && m.best <= old(m.best) && j == m.best && i <= j && forallu(y, implies(y < i, !condP(y)))
+//@   loop 0 decreases j - i
+
+//@ func minimize
+//@   noframe "calls the condition callback"
+//@   requires [C12] cond != nil && condP(u) && monotoneP()
+//@   ensures [C12] leastP(result)
+//@   ensures [C05,C12] result <= u
+//@   modifies heap, drawn, lockmode, cancelled
+//@   loop 0 invariant [C12] i <= 5 && i <= u && forallu(y, implies(y < i, !condP(y)))
